@@ -41,6 +41,10 @@ def obligations():
             o.append(Obl(f"C01.save.{f}.{tag}", "py", H, "save_units", [f"mdtraj.core.trajectory.Trajectory.save_{f}", "mdtraj.utils.unit.in_units_of", "mdtraj.utils.unitcell.lengths_and_angles_to_box_vectors"],
                          "2 frames x 2 atoms, symbolic coordinates/times/cell lengths", "numbers handed to the writer = trajectory values in the format's native unit, each in its own argument", 120,
                          params={"fmt": f, "cell": cell, "triclinic": tri}))
+    for f, shapes in (("mdcrd", ("hex", "mono", "mono_a", "frame1")), ("dcd", ("hex",)), ("netcdf", ("mono",)), ("lammpstrj", ("hex", "mono_a")), ("xtc", ("mono",))):
+        for sh in shapes:
+            o.append(Obl(f"C01.save.{f}.{sh}", "py", H, "save_units", [f"mdtraj.core.trajectory.Trajectory.save_{f}"], "2 frames x 2 atoms; a cell with SOME right angles (hex 90/90/120, mono 90/100/90, mono_a 75/90/90, frame1: only the second frame skewed)",
+                         "same; mdcrd (box lengths only) must refuse every non-rectilinear cell", 120, params={"fmt": f, "cell": True, "triclinic": True, "angles": sh}))
     for f in ("amberrst7", "netcdfrst"):
         for n in (1, 3, 11):
             for cell in (True, False):
